@@ -198,7 +198,7 @@ def r2(repo, chk):
     pc = Fn(repo, CONN + "_handle_connection_close_frame")
     sets = [st for st, t, v in pc.assigns(chain="self._close_event") if isinstance(v, ast.Call) and call_name(v).endswith("ConnectionTerminated")]
     cb = [c for c in pc.calls(name="self._close_begin") if norm(get_kw(c, "is_initiator", 0)) == "False"]
-    ok = len(sets) == 1 and len(cb) == 1 and pc.before(sets[0], cb[0]) and pc.lexical_guards(cb[0], expand=False) == [("self._close_event is None", True)]
+    ok = len(sets) == 1 and len(cb) == 1 and pc.before(sets[0], cb[0]) and set(pc.guard_atoms(cb[0])) == {("self._close_event is None", True)}
     chk.ob("R2", "_handle_connection_close_frame: a peer close records the event and starts the draining period", ok, "a peer close would leave the connection open until the idle timeout", pc.loc(pc.node))
     ht0 = Fn(repo, CONN + "handle_timer")
     ends = ht0.calls(name="self._close_end")
